@@ -86,6 +86,11 @@ class DriverGen:
             if field_kind(s, f) == "A":
                 c.append("    case %d: return mh::show_array(v.%s());" % (k, f.name))
         c.append("    default: return \"ERRK\"; }")
+        c.append("  if(c.op == \"getar\") switch(c.k) {")
+        for k, f in enumerate(nf):
+            if field_kind(s, f) == "A":
+                c.append("    case %d: return mh::show_array_raw(v.%s());" % (k, f.name))
+        c.append("    default: return \"ERRK\"; }")
         c.append("  if(c.op == \"setb\") switch(c.k) {")
         for k, f in enumerate(nf):
             kind = field_kind(s, f)
